@@ -65,6 +65,8 @@ class SerialDevice:
         self.rx_exceptions = []       # exceptions escaping data_received
         self.writes = []              # (seq#, t_us, unit, bytes)
         self.hostbuf = bytearray()
+        self._batches = {}
+        self._batch_last = 0
         self.observed = []            # (arrival us, bits, value) of foreign forward frames
         self.answer_arrivals = {}     # backward-frame value -> arrival time at the host (us)
         self.mute = False             # gateway stopped talking (fault)
@@ -83,11 +85,27 @@ class SerialDevice:
             self.world.on_write()
         self.on_host_bytes(data, unit)
 
+    BATCH_US = 16000       # USB-serial latency timer: reads are handed over in batches
+
     def send_bytes(self, data, at_us, key):
-        """Deliver `data` to the host, last byte arriving at at_us."""
+        """Deliver `data` to the host, last byte arriving at at_us.  Returns the
+        actual arrival time of the last byte (us)."""
         if self.mute:
             return
         data = bytes(data)
+        if self.chunking == "batch":
+            # everything that arrives within one latency-timer period is handed
+            # to data_received() in a single call, in order
+            at_us = max(int(at_us), self.world.now_us())
+            flush = max((at_us // self.BATCH_US + 1) * self.BATCH_US, self._batch_last)
+            self._batch_last = flush
+            b = self._batches.get(flush)
+            if b is None:
+                b = self._batches[flush] = bytearray()
+                self._last_deliver = max(self._last_deliver, flush * US)
+                self.loop.at(flush * US, self._flush_batch, flush)
+            b += data
+            return flush
         r = self.world.rng("chunk", self.name, key)
         if self.chunking == "whole":
             cuts = [len(data)]
@@ -104,6 +122,12 @@ class SerialDevice:
             t_act = self._deliver(data[prev:c], t)
             prev = c
         return t_act          # actual arrival of the last byte (us)
+
+    def _flush_batch(self, flush):
+        data = self._batches.pop(flush, None)
+        if data:
+            self.world.probe("serial-batch-of-%d-messages" % min(3, max(1, len(data) // 5 if self.name == "sci" else data.count(0x59))))
+            self._arrive(bytes(data))
 
     def _deliver(self, chunk, at_us):
         t = max(at_us * US, self._last_deliver + US, self.loop.time())
@@ -122,6 +146,27 @@ class SerialDevice:
             self.rx_exceptions.append((self.world.now_us(), chunk, repr(e)))
             self.world.log.add(self.loop.time(), "rx-exception", self.name,
                                type(e).__name__)
+
+
+def _classify(self, rec, conf_actual, answer_actual, timeout_us):
+    """Late / in time is decided from the times at which the host really got the
+    confirmation and the answer (batching and in-order delivery move them); in
+    between 80 % and 120 % of the documented timeout nothing is judged."""
+    if answer_actual is None or conf_actual is None:
+        return
+    d = answer_actual - conf_actual
+    rec["answer_arrival_us"] = answer_actual
+    if d <= 0.8 * timeout_us:
+        rec["late"] = False
+    elif d >= 1.2 * timeout_us:
+        if not rec.get("late"):
+            self.late_answers += 1
+        rec["late"] = True
+    else:
+        rec["ambiguous"] = True
+
+
+SerialDevice._classify = _classify
 
 
 def luba_frame(cmd, payload):
@@ -240,13 +285,14 @@ class LubaGW(SerialDevice):
         lost_conf = idx in self.silent_confirm
         lat1 = self.lat.draw(self.name, "c1", idx)
         conf_arrival = end + 3000 + lat1 + self.late_confirm.get(idx, 0)
+        conf_planned = conf_arrival
         if not lost_conf:
             conf_arrival = self.event(0, bits, [tx_id] + fbytes, conf_arrival, "sent") or conf_arrival
         if twice:
             gap = r.randrange(SETTLE_FF_FF_MIN, 30000)
             start2 = self.line.reserve(end + gap, dur, gap_us=0)
             end = start2 + dur
-            conf_arrival = max(conf_arrival + 1000,
+            conf_planned = conf_arrival = max(conf_arrival + 1000,
                                end + 3000 + self.lat.draw(self.name, "c2", idx))
             if not lost_conf:
                 conf_arrival = self.event(0, bits, [tx_id] + fbytes, conf_arrival, "sent2") or conf_arrival
@@ -271,15 +317,19 @@ class LubaGW(SerialDevice):
             # clearly inside it (<= 80 %)
             delta = r.randrange(6000, 20000)
             rec["late"] = False
-        arrival = conf_arrival + delta
+        # physical time of the answer relative to the physical time of the
+        # confirmation; what the host sees (batching, in-order pipe) follows
+        arrival = (conf_planned if self.chunking == "batch" else conf_arrival) + delta
         if idx in self.silent_answer:
             rec["answer_lost"] = True
             return
         rec["answer_arrival_us"] = arrival
         if outcome[0] == "value":
-            self.answer_arrivals[outcome[1]] = self.event(2, 8, [outcome[1]], arrival, "bf")
+            act = self.event(2, 8, [outcome[1]], arrival, "bf")
+            self.answer_arrivals[outcome[1]] = act
         else:
-            self.event(2, 63, [outcome[1] if len(outcome) > 1 else 0], arrival, "bferr")
+            act = self.event(2, 63, [outcome[1] if len(outcome) > 1 else 0], arrival, "bferr")
+        self._classify(rec, conf_arrival, act, 25000)
 
     # ---- traffic of other masters --------------------------------------------
     def observe_forward(self, bits, value, at_us):
@@ -318,6 +368,7 @@ class SciGW(SerialDevice):
         self.silent_answer = set()
         self.late_answers = 0
         self.late_confirm = {}        # send idx -> extra us (beyond the 0.1 s timeout)
+        self.foreign_errors = []      # arrival times of error frames caused by other masters' traffic
 
     def status(self, code, at_us, key, d=(0, 0, 0)):
         self.nmsg += 1
@@ -372,6 +423,7 @@ class SciGW(SerialDevice):
             end = start2 + dur
         lat1 = min(self.lat.draw(self.name, "c", idx), 20000)
         conf_arrival = end + 1500 + lat1 + self.late_confirm.get(idx, 0)
+        conf_planned = conf_arrival
         lost_conf = idx in self.silent_confirm
         if not lost_conf:
             conf_arrival = self.status(0, conf_arrival, "ok") or conf_arrival
@@ -394,19 +446,22 @@ class SciGW(SerialDevice):
         else:
             delta = r.randrange(6000, 24000)        # <= 80 % of 30 ms
             rec["late"] = False
-        arrival = conf_arrival + delta
+        arrival = (conf_planned if self.chunking == "batch" else conf_arrival) + delta
         if idx in self.silent_answer:
             rec["answer_lost"] = True
             return
         rec["answer_arrival_us"] = arrival
         self.nmsg += 1
         if outcome[0] == "value":
-            self.answer_arrivals[outcome[1]] = self.send_bytes(
+            act = self.send_bytes(
                 sci_frame((self.device_id << 4) | 2, 0, 0, outcome[1]), arrival, ("bf", self.nmsg))
+            self.answer_arrivals[outcome[1]] = act
         else:
             # DALI receive error: error frame, code 7, error type 3
-            self.send_bytes(sci_frame((self.device_id << 4) | 7, 0, 0, 3),
-                            arrival, ("bferr", self.nmsg))
+            act = self.send_bytes(sci_frame((self.device_id << 4) | 7, 0, 0, 3),
+                                  arrival, ("bferr", self.nmsg))
+            self.foreign_errors.append(act)      # error frames of any origin
+        self._classify(rec, conf_arrival, act, 30000)
 
     def observe_forward(self, bits, value, at_us):
         b = list(value.to_bytes(3, "big"))     # right-aligned (receive layout)
@@ -420,8 +475,9 @@ class SciGW(SerialDevice):
     def observe_backward(self, value, at_us, error=False):
         self.nmsg += 1
         if error:
-            self.send_bytes(sci_frame((self.device_id << 4) | 7, 0, 0, 3),
-                            at_us + 1500, ("obs-err", self.nmsg))
+            t = self.send_bytes(sci_frame((self.device_id << 4) | 7, 0, 0, 3),
+                                at_us + 1500, ("obs-err", self.nmsg))
+            self.foreign_errors.append(t)
         else:
             self.answer_arrivals[value] = self.send_bytes(
                 sci_frame((self.device_id << 4) | 2, 0, 0, value), at_us + 1500, ("obs-bf", self.nmsg))
